@@ -13,13 +13,14 @@ import (
 func init() { registry["C10"] = checkC10 }
 
 func checkC10(c *Check) {
-	c.Explanation = "Decided on all paths of the manifest acceptance code: (R1) the manager accepts a submission (nil) only on paths dominated by: hash of the submitted manifest equals the expected version, where the expected version is the latest version update if any and the fetched deployment's version otherwise; stand-alone manifest validation ok; cross-validation against the fetched deployment's groups ok; (R2) the hash covers everything: every struct field reachable from manifest.Manifest is exported, has no json:\"-\" tag and no map type, so the sorted-JSON encoding is structural and complete, and the hash is sha256 over that encoding; (R3) the cross-validation compares group count, group names, every dimension of the resource units (each ResourceUnits field takes part in a comparison with a rejecting exit), replica counts through the fill/drain arithmetic with both leftover checks, and both endpoint kinds; the search over manifest entries always starts at the first entry (a necessary condition for order-independence)."
+	c.Explanation = "Decided on all paths of the manifest acceptance code: (R1) the manager accepts a submission (nil) only on paths dominated by: hash of the submitted manifest equals the expected version, where the expected version is the latest version update if any and the fetched deployment's version otherwise; stand-alone manifest validation ok; cross-validation against the fetched deployment's groups ok; (R2) the hash covers everything: every struct field reachable from manifest.Manifest is exported, has no json:\"-\" tag and no map type, so the sorted-JSON encoding is structural and complete, and the hash is sha256 over that encoding; (R3) the cross-validation compares group count, group names, every dimension of the resource units (each ResourceUnits field takes part in a comparison with a rejecting exit), replica counts through the fill/drain arithmetic with both leftover checks, and both endpoint kinds; the search over manifest entries always starts at the first entry (a necessary condition for order-independence). No two fields under the manifest share a JSON name; (*Attribute).Equal pairs key with key and value with value."
 	c.NotDecided = "completeness of the greedy matcher (accepting every equal multiset) as an algorithmic equivalence; collision resistance of SHA-256"
 	l := c.L
 
 	// ---- R1
 	c.manifestVersionRule("R1")
 	c.onlyValidatedRecorded("R1")
+	c.managerInboxBlocking("R1")
 	// the version the manager expects comes from deployment-updated events: only those of successful transactions
 	c.okOnlyPublished("R1")
 
@@ -27,6 +28,7 @@ func checkC10(c *Check) {
 	// group is picked out by name; a pointer to a range variable that outlives its iteration names whatever element the
 	// loop visited last (the module's Go version gives one variable per loop)
 	c.loopVarAddressEscapes("R1", []string{"provider/event", "provider/manifest", "validation", "manifest"})
+	c.attributeEqualRule("R3")
 
 	// ---- R2 hash covers everything
 	mp := l.Pkg("manifest")
@@ -56,6 +58,25 @@ func checkC10(c *Check) {
 		}
 		switch u := t.Underlying().(type) {
 		case *types.Struct:
+			// encoding/json drops BOTH of two fields that resolve to the same name at the same depth
+			jsonName := map[string]string{}
+			for i := 0; i < u.NumFields(); i++ {
+				f := u.Field(i)
+				if !f.Exported() || f.Embedded() || strings.HasPrefix(f.Name(), "XXX_") {
+					continue
+				}
+				name := strings.Split(reflect.StructTag(u.Tag(i)).Get("json"), ",")[0]
+				if name == "-" {
+					continue
+				}
+				if name == "" {
+					name = f.Name()
+				}
+				if prev, dup := jsonName[name]; dup {
+					c.Ob("R2", "fields of "+path+" have distinct JSON names", f.Pos(), false, "fields "+prev+" and "+f.Name()+" are both encoded as \""+name+"\": encoding/json silently leaves both out, so neither changes the version hash (and neither reaches the provider)")
+				}
+				jsonName[name] = f.Name()
+			}
 			for i := 0; i < u.NumFields(); i++ {
 				f := u.Field(i)
 				tag := reflect.StructTag(u.Tag(i)).Get("json")
@@ -137,9 +158,14 @@ func checkC10(c *Check) {
 	// leftover checks
 	{
 		under, over := false, false
-		for _, b := range vg.Blocks {
-			if r, isR := b.Instrs[len(b.Instrs)-1].(*ssa.Return); isR && !isNilConst(r.Results[0]) {
-				s := Sym(r.Results[0])
+		// (the matching may have been moved into new helpers of the function: their blocks are part of it)
+		var vgBlocks []*ssa.BasicBlock
+		for _, g := range fnAndClosuresDeep(vg) {
+			vgBlocks = append(vgBlocks, g.Blocks...)
+		}
+		for _, b := range vgBlocks {
+			if r, isR := b.Instrs[len(b.Instrs)-1].(*ssa.Return); isR && len(r.Results) > 0 && !isNilConst(r.Results[len(r.Results)-1]) {
+				s := Sym(r.Results[len(r.Results)-1])
 				if strings.Contains(s, "underutilized deployment group") {
 					under = true
 				}
@@ -158,7 +184,7 @@ func checkC10(c *Check) {
 		// inner search starts at the first entry for every deployment record
 		okStart := false
 		bad := ""
-		for _, b := range vg.Blocks {
+		for _, b := range vgBlocks {
 			ifi, isIf := b.Instrs[len(b.Instrs)-1].(*ssa.If)
 			if !isIf {
 				continue
@@ -664,4 +690,95 @@ func paramRetained(g *ssa.Function, p *ssa.Parameter) bool {
 		}
 	}
 	return false
+}
+
+// attributeEqualRule: the generated CPU/Memory/Storage.Equal methods, which decide whether a manifest service asks for
+// exactly the on-chain unit, compare attributes through the hand-written (*Attribute).Equal. That method must compare
+// both fields of the receiver with the same field of its argument: reflect.DeepEqual of the two, or field
+// comparisons that pair Key with Key and Value with Value across the two values. Other forms are not decided.
+func (c *Check) attributeEqualRule(rule string) {
+	l := c.L
+	fn := l.Func("types", "Attribute", "Equal")
+	c.Analysed(fnName(fn))
+	sideOf := func(v ssa.Value) (int, string) {
+		f := ""
+		for d := 0; d < 6; d++ {
+			switch x := v.(type) {
+			case *ssa.UnOp:
+				v = x.X
+				continue
+			case *ssa.FieldAddr:
+				f = fieldName(x.X.Type(), x.Field)
+				v = x.X
+				continue
+			case *ssa.Field:
+				f = fieldName(x.X.Type(), x.Field)
+				v = x.X
+				continue
+			case *ssa.MakeInterface:
+				v = x.X
+				continue
+			case *ssa.Alloc:
+				if pp := paramOfAlloc(x); pp != nil {
+					v = pp
+					continue
+				}
+			case *ssa.Parameter:
+				return paramIdx(x), f
+			}
+			break
+		}
+		return -1, f
+	}
+	deep, bad := false, ""
+	cov := map[string]bool{}
+	ncmp := 0
+	eachInstrDeep(fn, func(i ssa.Instruction) {
+		switch x := i.(type) {
+		case *ssa.Call:
+			if calleeFull(x) == "reflect.DeepEqual" && len(x.Call.Args) == 2 {
+				a, fa := sideOf(x.Call.Args[0])
+				b, fb := sideOf(x.Call.Args[1])
+				if fa == "" && fb == "" && a >= 0 && b >= 0 && a != b {
+					deep = true
+				} else if a >= 0 && a == b {
+					bad = "reflect.DeepEqual is handed the same value twice"
+				}
+			}
+		case *ssa.BinOp:
+			if x.Op != token.EQL && x.Op != token.NEQ {
+				return
+			}
+			a, fa := sideOf(x.X)
+			b, fb := sideOf(x.Y)
+			if fa == "" || fb == "" || a < 0 || b < 0 {
+				return
+			}
+			ncmp++
+			switch {
+			case a == b:
+				bad = "compares " + fa + " with " + fb + " of the same attribute"
+			case fa != fb:
+				bad = "compares " + fa + " with " + fb
+			default:
+				cov[fa] = true
+			}
+		}
+	})
+	switch {
+	case bad != "":
+		c.Ob(rule, "(*Attribute).Equal compares key with key and value with value of the two attributes", fn.Pos(), false, bad+": attributes that differ there compare equal, so a manifest unit with other attributes matches the on-chain unit")
+	case deep:
+		c.Ob(rule, "(*Attribute).Equal compares key with key and value with value of the two attributes", fn.Pos(), true, "")
+	case ncmp > 0:
+		miss := ""
+		for _, f := range []string{"Key", "Value"} {
+			if !cov[f] {
+				miss += f + " "
+			}
+		}
+		c.Ob(rule, "(*Attribute).Equal compares key with key and value with value of the two attributes", fn.Pos(), miss == "", "field "+miss+"is not compared: attributes that differ only there compare equal")
+	default:
+		c.Info(rule, "(*Attribute).Equal: form not recognised, not decided", fn.Pos(), "")
+	}
 }
